@@ -62,6 +62,46 @@ func c16Scan(code []ds.VerifOp, cfg ds.RollConfig, hasMacro bool, out *[]c16Find
 	}
 }
 
+// c16NoRuntime switches the run-time instruction watch off: once the host has changed the
+// configuration of a VM, functions and computed values compiled before the change legitimately
+// keep the meaning they were compiled with (the switches govern parsing).
+var c16NoRuntime bool
+
+// c16RegR registers the documented stream-style custom die "R<expr>": the parser reads an operand
+// with ReadExpr, the handler evaluates it with ComputedExecute.
+func c16RegR(vm *ds.Context) {
+	_ = vm.RegCustomDiceParser(
+		func(ctx *ds.Context, stream *ds.CustomDiceStream) (*ds.CustomDiceParseResult, error) {
+			c, ok := stream.Read()
+			if !ok || c != 'R' {
+				stream.ResetAttempt()
+				return &ds.CustomDiceParseResult{Matched: false}, nil
+			}
+			expr, matched, err := stream.ReadExpr("")
+			if err != nil {
+				return nil, err
+			}
+			if !matched {
+				stream.ResetAttempt()
+				return &ds.CustomDiceParseResult{Matched: false}, nil
+			}
+			stream.Commit()
+			return &ds.CustomDiceParseResult{Groups: []string{stream.Current()}, Payload: expr, Matched: true}, nil
+		},
+		func(ctx *ds.Context, groups []string, raw any) (*ds.VMValue, string, error) {
+			ev, ok := raw.(*ds.VMValue)
+			if !ok || ev == nil {
+				return ds.NewNullVal(), "", nil
+			}
+			res := ev.ComputedExecute(ctx, &ds.BufferSpan{})
+			if ctx.Error != nil {
+				return nil, "", ctx.Error
+			}
+			return res, "", nil
+		},
+	)
+}
+
 func cfgPlain(c ds.RollConfig) string {
 	return fmt.Sprintf("%v %v %v %v | %v %v %v | %d %d %q | %v %v %d %v %v", c.EnableDiceWoD, c.EnableDiceCoC, c.EnableDiceFate, c.EnableDiceDoubleCross,
 		c.DisableBitwiseOp, c.DisableStmts, c.DisableNDice, c.ParseExprLimit, c.OpCountLimit, c.DefaultDiceSideExpr, c.PrintBytecode, c.IgnoreDiv0, c.ParseErrorLanguage, c.DiceMinMode, c.DiceMaxMode)
@@ -95,6 +135,32 @@ func c16Run(w *fw.W, idx int, vm *ds.Context, src string, desc string, run bool)
 	// unless the input carries a macro
 	hasMacroTop := strings.Contains(src, "#EnableDice")
 	mo.OnRoll = nil
+	// third line: whatever way code got compiled (also code handed around precompiled, e.g. by a
+	// custom-dice parser's ReadExpr), no instruction that the root configuration forbids may be
+	// *executed* by an input without macro
+	rootC := vm.Config
+	seenRT := map[string]bool{}
+	mo.OnTick = func(ctx *ds.Context, pc int) {
+		name := ds.VerifOpAt(ctx, pc)
+		bad := ""
+		if f := opFamily(name); f != "" && !hasMacroTop {
+			en := map[string]bool{"coc": rootC.EnableDiceCoC, "wod": rootC.EnableDiceWoD, "fate": rootC.EnableDiceFate, "dc": rootC.EnableDiceDoubleCross}[f]
+			if !en {
+				bad = "flags|executed|family|" + f
+			}
+		}
+		if rootC.DisableStmts && (name == "push.func" || name == "block.push") {
+			bad = "flags|executed|stmt|" + name
+		}
+		if rootC.DisableNDice && name == "push.def_expr" && ctx.Depth() == 0 {
+			bad = "flags|executed|ndice"
+		}
+		if bad != "" && !seenRT[bad] && !c16NoRuntime {
+			seenRT[bad] = true
+			findings = append(findings, c16Finding{bad, fmt.Sprintf("instruction %s executed at depth %d although the root configuration forbids it", name, ctx.Depth())})
+		}
+		w.Count("instructions_watched", 1)
+	}
 	before := cfgPlain(vm.Config)
 	rootCfg := vm.Config
 	hook.Set(mo)
@@ -274,8 +340,15 @@ func c16Case(w *fw.W, idx int, r *fw.Rand) {
 		// sequences mixing macro lines and plain inputs on one VM
 		bits := r.Intn(16)
 		cfg := c16Cfg(bits)
+		cfg.NoStmts, cfg.NoNDice, cfg.NoBitwise = r.P(1, 3), r.P(1, 4), r.P(1, 4)
 		vm := cfg.NewVM()
+		withR := r.P(1, 3)
+		if withR {
+			c16RegR(vm)
+		}
 		var hist []string
+		c16NoRuntime = false
+		defer func() { c16NoRuntime = false }()
 		lastSrc := ""
 		n := r.Range(2, 5)
 		for k := 0; k < n; k++ {
@@ -290,6 +363,10 @@ func c16Case(w *fw.W, idx int, r *fw.Rand) {
 				if r.P(1, 6) {
 					macro = "// #EnableDiceWoD true\n" // the guide's spelling: just a comment
 				}
+			}
+			if withR && r.P(1, 2) {
+				// operands of a host-defined custom die: read by ReadExpr, evaluated by the handler
+				plain = "R" + r.Pick([]string{"1+2", "(2+3)*2", "`{% i = 0; while i < 3 { i = i + 1 } %}{i}`", "`{% func fff() { 42 }; fff() %}`", "`{% if 1 { 2 } %}`", "(2d)", "(1|2)", "b2", "(f)", "(3a8)", "(2c8)", "`{b2}{f}`", "(d6)"})
 			}
 			src = macro + plain
 			if k > 0 && r.P(1, 3) {
@@ -312,6 +389,7 @@ func c16Case(w *fw.W, idx int, r *fw.Rand) {
 					cfg.WoD, cfg.CoC, cfg.Fate, cfg.DC = false, false, false, false
 				}
 				cfg.Apply(vm)
+				c16NoRuntime = true
 				if r.Bool() {
 					src = lastSrc
 				}
@@ -346,6 +424,9 @@ func c16Case(w *fw.W, idx int, r *fw.Rand) {
 			if !strings.Contains(src, "#EnableDice ") {
 				// an input without macro must compile exactly as on a fresh VM with the same Config
 				fresh := cfg.NewVM()
+				if withR {
+					c16RegR(fresh)
+				}
 				var l2 string
 				fw.Guard(func() {
 					if fresh.Parse(src) == nil {
